@@ -140,7 +140,8 @@ def job(cfg):
     if mode == "sonar":
         argv += ["--sonar-hotspots-json", "{res:hotspots.json}"]
         results["hotspots.json"] = json.dumps(sonar_doc()).encode()
-    return drive.Job(files=tree(), argv=argv, results=results, outside=OUTSIDE, proj_rel=proj_rel)
+    # a second identical invocation on the evolving tree: what is selected does not depend on what has been fixed already
+    return drive.Job(files=tree(), argv=argv, results=results, outside=OUTSIDE, proj_rel=proj_rel, runs=2 if mode == "semgrep" else 1)
 
 
 def pattern_class(lst):
@@ -177,8 +178,10 @@ def judge(cfg, obs):
         out.append((f"{base}|missing-files", f"selected files with a fixable construct left alone: {missing[:6]}"))
     if obs.outside_after != OUTSIDE:
         out.append((f"{base}|outside-written", "a file outside the target directory was modified"))
-    rep = obs.report or {}
-    cs_paths = sorted(c["path"] for r in rep.get("results", []) for c in r.get("changeset", []))
+    cs_paths = sorted({c["path"] for rep in obs.reports for r in (rep or {}).get("results", []) for c in r.get("changeset", [])})
+    # (with path:line patterns a fix may move the named line, so a second run may legitimately have work: not judged)
+    if len(obs.reports) > 1 and not any(":" in p_ for p_ in list(include) + list(exclude)) and any(c for r in (obs.reports[-1] or {}).get("results", []) for c in r.get("changeset", [])):
+        out.append((f"{base}|second-run-changes", f"the second identical invocation reported changes again: {sorted(c['path'] for r in obs.reports[-1]['results'] for c in r['changeset'])[:6]}"))
     if cs_paths != sorted(changed):
         out.append((f"{base}|changeset-paths", f"changeset paths {cs_paths[:6]} != changed files {sorted(changed)[:6]}"))
     return out, bool(changed)
